@@ -2,6 +2,7 @@ package main
 
 import (
 	"verifharness/internal/cors"
+	"verifharness/internal/entity"
 	"verifharness/internal/mime"
 	"verifharness/internal/report"
 	"verifharness/internal/serve"
@@ -94,6 +95,8 @@ func init() {
 		if err := mime.CheckTracePurity(run, 2*n); err != nil {
 			return err
 		}
+		// request bodies read at the same moment (Request.ReadEntity, every provider)
+		entity.CheckConcurrentReads(run, sizes(run, 8, 80))
 		// batches biased towards what overlapping requests can disturb (several passing container
 		// filters, a filter on every service), held together after routing and released
 		return serve.CheckConcurrent(run, serve.PropSpec{ID: "C19", Proj: serve.ProjAllButLedger}, serve.GenOpts{Router: "curly", PanicPct: 1}, n, 6)
